@@ -6,6 +6,8 @@ agg's decorator tag, cube's size sequence), Gen.Methods (tags of groupBy / agg /
 (the wrap rule of both decorators).  avg is an exact rational (see Impl/C06Group.lean).
 -/
 import SqlframeModel.Lemmas.C06DF
+import SqlframeModel.Lemmas.C06Const
+import SqlframeModel.Lemmas.C06Pos
 namespace Sqlframe
 open Gen
 
@@ -80,27 +82,121 @@ theorem C06_count_distinct_n :
     simp only [countDistinctTuples, aggVal, hf, distinctL_singletons, List.length_map]
 
 /-- **GROUP BY block = specification, for all tables.**  The block `GroupedData.agg` builds (GROUP BY on the
-    un-aliased key expressions, select list keys ++ aggregates, the WHERE of the open block kept) evaluates
-    to the specification applied to the filtered source. -/
+    un-aliased expressions of the keys the regenerated filter keeps, select list keys ++ aggregates, the WHERE
+    of the open block kept) evaluates to the specification applied to the filtered source — for every key
+    list without an integer literal (`H_intLiteralKey`), constants of any other kind included. -/
 theorem C06_agg_sem (wher : List Expr) (keys : List (Name × Expr)) (aggs : List (Name × AExpr)) (T0 : Table)
-    (hk : (keys.map (·.2)).Nodup) :
-    evalGBlock { wher := wher, groupBy := keys.map (·.2),
+    (hk : (keys.map (·.2)).Nodup) (hn : ∀ k ∈ keys, k.2.isIntLit = false) :
+    evalGBlock { wher := wher, groupBy := groupByList keys,
                  sel := keys.map (fun k => (k.1, GItem.key k.2)) ++ aggs.map (fun a => (a.1, GItem.agg a.2)) } T0
       = aggSpec keys aggs { cols := T0.cols, rows := stWhere wher T0 } :=
-  evalGBlock_spec wher keys aggs T0 hk
+  evalGBlock_spec wher keys aggs T0 hk hn
 
 /-- **Empty input**: a global aggregate yields exactly one row (count 0, sum/min/max/avg NULL), a grouped
     one yields none — for the DataFrame model, in any reachable state. -/
 theorem C06_empty (d : DF) (hi : Inv d) (keys : List (Name × Expr)) (aggs : List (Name × AExpr))
-    (hwf : aggsWF d.eval.cols keys aggs) (he : d.eval.rows = []) :
+    (hwf : aggsWF d.eval.cols keys aggs) (hn : ∀ k ∈ keys, k.2.isIntLit = false) (he : d.eval.rows = []) :
     (keys = [] → ((d.groupBy keys).agg aggs).eval.rows = [aggs.map (fun a => evalAExpr d.eval.cols [] a.2)]) ∧
     (keys ≠ [] → ((d.groupBy keys).agg aggs).eval.rows = []) ∧
     aggVal .countStar [] = .int 0 ∧ aggVal .count [] = .int 0 ∧ aggVal .sum [] = .null ∧
     aggVal .avg [] = .null ∧ aggVal .min [] = .null ∧ aggVal .max [] = .null ∧ aggVal .countDistinct [] = .int 0 := by
-  rw [(groupAgg_df d hi keys aggs hwf).1]
+  rw [(groupAgg_df d hi keys aggs hwf hn).1]
   refine ⟨?_, ?_, by decide, by decide, by decide, by decide, by decide, by decide, by decide⟩
   · intro hk; subst hk; simp [aggSpec, he]
   · intro hk; simp [aggSpec, he, hk, distinctL]
+
+/-! ### which keys reach GROUP BY; constant keys; integer constants are positions -/
+
+/-- **Every grouping key reaches the GROUP BY clause** (and, for cube, the tuple of every grouping set it
+    belongs to), whatever the class of its expression — string / number literal, Boolean, NULL, column, or
+    any other expression.  The two filters are regenerated from the comprehensions
+    `[x.column_expression for x in self.group_by_cols <if …>]` / `… for x in grouping_set <if …>` of
+    `GroupedData.agg`; a non-empty key list therefore never yields a statement without GROUP BY. -/
+theorem C06_groupby_keys :
+    (∀ c : KeyClass, groupByKeeps c = true) ∧ (∀ c : KeyClass, groupingSetKeeps c = true) ∧
+    (∀ keys : List (Name × Expr), groupByList keys = keys.map (·.2)) ∧
+    (∀ S : List (Name × Expr), groupingSetList S = S.map (·.2)) ∧
+    (∀ keys : List (Name × Expr), keys ≠ [] → groupByList keys ≠ []) := by
+  refine ⟨groupByKeeps_all, groupingSetKeeps_all, groupByList_eq, groupingSetList_eq, fun keys hk h => ?_⟩
+  rw [groupByList_eq] at h
+  exact hk (List.map_eq_nil_iff.mp h)
+
+/-- **A grouped aggregate whose keys are all constants is still a grouped aggregate**: one row — the
+    constants followed by the aggregates over all rows — iff the input has a row, and *no* row over an empty
+    input (a global aggregate would yield one).  (1) PySpark's specification, for every table;
+    (2) the DataFrame model in any reachable state (keys without integer literals). -/
+theorem C06_const_keys (keys : List (Name × Expr)) (aggs : List (Name × AExpr))
+    (hk : keys ≠ []) (hc : ∀ k ∈ keys, k.2.refs = []) :
+    (∀ T : Table, (aggSpec keys aggs T).rows =
+      if T.rows = [] then []
+      else [keys.map (fun k => constValue k.2) ++ aggs.map (fun a => evalAExpr T.cols T.rows a.2)]) ∧
+    (∀ d : DF, Inv d → aggsWF d.eval.cols keys aggs → (∀ k ∈ keys, k.2.isIntLit = false) →
+      ((d.groupBy keys).agg aggs).eval.rows =
+        if d.eval.rows = [] then []
+        else [keys.map (fun k => constValue k.2) ++ aggs.map (fun a => evalAExpr d.eval.cols d.eval.rows a.2)]) := by
+  refine ⟨fun T => aggSpec_const_keys keys aggs T hk hc, fun d hi hwf hn => ?_⟩
+  rw [(groupAgg_df d hi keys aggs hwf hn).1]
+  exact aggSpec_const_keys keys aggs d.eval hk hc
+
+/-- **The engine reads a bare integer constant in GROUP BY as a position in the select list** (the assumed
+    engine rule, validated against DuckDB by the stream): any other term stands for itself; the constant `n`
+    stands for the expression of the n-th select item if that is a key, and is rejected otherwise; one
+    rejected term rejects the clause. -/
+theorem C06_groupby_position (sel : List (Name × GItem)) :
+    (∀ e : Expr, e.isIntLit = false → groupByTerm sel e = some e) ∧
+    (∀ (n : Int) (e : Expr), groupByTerm sel (.lit (.int n)) = some e ↔
+        0 < n ∧ ∃ nm, sel[(n - 1).toNat]? = some (nm, GItem.key e)) ∧
+    (∀ es : List Expr, (∃ e ∈ es, groupByTerm sel e = none) → resolveGroupBy sel es = none) ∧
+    (∀ es : List Expr, (∀ e ∈ es, e.isIntLit = false) → resolveGroupBy sel es = some es) := by
+  refine ⟨groupByTerm_self sel, fun n e => ?_, resolveGroupBy_none sel, resolveGroupBy_self sel⟩
+  simp only [groupByTerm]
+  by_cases h0 : n ≤ 0
+  · rw [if_pos h0]
+    constructor
+    · intro h; exact absurd h (by simp)
+    · intro h; omega
+  · rw [if_neg h0]
+    have hpos : 0 < n := by omega
+    cases hs : sel[(n - 1).toNat]? with
+    | none => simp [hpos]
+    | some it =>
+      obtain ⟨nm, gi⟩ := it
+      cases gi with
+      | key e' => simp [hpos]
+      | agg a => simp [hpos]
+
+/-- **`H_intLiteralKey`, characterised**: with an integer-literal key `lit n` the statement `agg` builds is
+    rejected by the engine whenever `n` is not the position of one of the keys (`n ≤ 0` or
+    `n > number of keys`) — for every table, every other key and every aggregate list.  PySpark groups by
+    the constant. -/
+theorem C06_intLiteral_rejected (wher : List Expr) (keys : List (Name × Expr)) (aggs : List (Name × AExpr)) (T0 : Table)
+    (nm : Name) (n : Int) (hmem : (nm, Expr.lit (.int n)) ∈ keys) (hout : n ≤ 0 ∨ (keys.length : Int) < n) :
+    evalGBlock { wher := wher, groupBy := groupByList keys,
+                 sel := keys.map (fun k => (k.1, GItem.key k.2)) ++ aggs.map (fun a => (a.1, GItem.agg a.2)) } T0
+      = aggErrTable := by
+  have hnone := resolveGroupBy_none (keys.map (fun k => (k.1, GItem.key k.2)) ++ aggs.map (fun a => (a.1, GItem.agg a.2)))
+    (groupByList keys) ⟨.lit (.int n), by rw [groupByList_eq]; exact List.mem_map.mpr ⟨_, hmem, rfl⟩, groupByTerm_out keys aggs n hout⟩
+  simp only [evalGBlock, hnone]
+
+/-- **Outside cube, `H_intLiteralKey` is loud, never silent.**  For *every* key list — integer literals
+    included, no hypothesis on the keys at all — (1) the GROUP BY block `GroupedData.agg` builds is either
+    rejected by the engine or equal to the specification (a position that names a key of the select list adds
+    nothing to the grouping; the constant itself is evaluated as a constant), for all tables; (2) the same for
+    `groupBy(keys).agg(aggs)` on the DataFrame model in any reachable state.  (The check therefore accepts the
+    known finding outside cube only when the real engine did reject the statement.) -/
+theorem C06_intLiteral_loud (keys : List (Name × Expr)) (aggs : List (Name × AExpr)) :
+    (∀ (wher : List Expr) (T0 : Table),
+      evalGBlock { wher := wher, groupBy := groupByList keys,
+                   sel := keys.map (fun k => (k.1, GItem.key k.2)) ++ aggs.map (fun a => (a.1, GItem.agg a.2)) } T0 = aggErrTable ∨
+      evalGBlock { wher := wher, groupBy := groupByList keys,
+                   sel := keys.map (fun k => (k.1, GItem.key k.2)) ++ aggs.map (fun a => (a.1, GItem.agg a.2)) } T0
+        = aggSpec keys aggs { cols := T0.cols, rows := stWhere wher T0 }) ∧
+    (∀ d : DF, Inv d → aggsWF d.eval.cols keys aggs →
+      ((d.groupBy keys).agg aggs).eval.cols = [] ∨ ((d.groupBy keys).agg aggs).eval = aggSpec keys aggs d.eval) := by
+  refine ⟨fun wher T0 => evalGBlock_loud wher keys aggs T0, fun d hi hwf => ?_⟩
+  rcases groupAgg_df_loud d hi keys aggs hwf with h | h
+  · exact Or.inl h
+  · exact Or.inr h.1
 
 /-! ### output columns -/
 
@@ -111,13 +207,14 @@ theorem C06_empty (d : DF) (hi : Inv d) (keys : List (Name × Expr)) (aggs : Lis
     (3) count(). -/
 theorem C06_cols :
     (∀ (d : DF) (keys : List (Name × Expr)) (aggs : List (Name × AExpr)), Inv d → aggsWF d.eval.cols keys aggs →
+        (∀ k ∈ keys, k.2.isIntLit = false) →
         ((d.groupBy keys).agg aggs).eval.cols = keys.map (·.1) ++ aggs.map (·.1)) ∧
     (∀ (m : String) (cs : List Name), shortcutAggs m cs = specShortcutAggs m cs) ∧
     (∀ (m : String) (c : Name) (p : String × AggFn), sparkShortcut m = some p →
         shortcutAggs m [c] = some [(p.1 ++ "(" ++ c ++ ")", AExpr.agg p.2 (.col c))]) ∧
     countAggs = [("count", AExpr.agg .countStar (.lit (.int 1)))] := by
-  refine ⟨fun d keys aggs hi hwf => ?_, shortcutAggs_spec, fun m c p hp => ?_, by decide⟩
-  · rw [(groupAgg_df d hi keys aggs hwf).1]; rfl
+  refine ⟨fun d keys aggs hi hwf hn => ?_, shortcutAggs_spec, fun m c p hp => ?_, by decide⟩
+  · rw [(groupAgg_df d hi keys aggs hwf hn).1]; rfl
   · rw [shortcutAggs_spec]; simp [specShortcutAggs, hp]
 
 /-! ### cube -/
@@ -135,9 +232,9 @@ theorem C06_cube {α} (keys : List α) :
 /-- **cube on a non-empty input** = every sub-total level of the specification (as a bag), and the result
     satisfies the clause-order invariant -/
 theorem C06_cube_df (d : DF) (hi : Inv d) (keys : List (Name × Expr)) (aggs : List (Name × AExpr))
-    (hwf : aggsWF d.eval.cols keys aggs) (hne : d.eval.rows ≠ []) :
+    (hwf : aggsWF d.eval.cols keys aggs) (hne : d.eval.rows ≠ []) (hn : ∀ k ∈ keys, k.2.isIntLit = false) :
     SameBag ((d.cube keys).agg aggs).eval (cubeSpec keys aggs d.eval) ∧ Inv ((d.cube keys).agg aggs) := by
-  obtain ⟨h1, h2, h3⟩ := cube_df d hi keys aggs hwf hne
+  obtain ⟨h1, h2, h3⟩ := cube_df d hi keys aggs hwf hne hn
   exact ⟨⟨h1, h2⟩, h3⟩
 
 /-! ### as a step inside chains -/
@@ -145,20 +242,43 @@ theorem C06_cube_df (d : DF) (hi : Inv d) (keys : List (Name × Expr)) (aggs : L
 /-- **One step** (a plain C01 step other than orderBy, or groupBy().agg / a shortcut / count() /
     DataFrame.agg): the model's result is the specification's, and the invariant is re-established — so an
     aggregate after a select starts a new SELECT, and a where after an aggregate is a post-filter. -/
-theorem C06_step (d : DF) (s : GStep) (hi : Inv d) (hs : s.WF d.eval.cols) (hok : s.okForChain = true) :
-    (d.applyG s).eval = specG d.eval s ∧ Inv (d.applyG s) := applyG_step d s hi hs hok
+theorem C06_step (d : DF) (s : GStep) (hi : Inv d) (hs : s.WF d.eval.cols) (hok : s.okForChain = true)
+    (hn : s.intLitKeyInGroupBy = false) :
+    (d.applyG s).eval = specG d.eval s ∧ Inv (d.applyG s) := applyG_step d s hi hs hok hn
 
 theorem C06_run (steps : List GStep) : ∀ (d : DF), Inv d → GStepsWF d.eval steps →
-    (∀ s ∈ steps, s.okForChain = true) → (d.runG steps).eval = specRunG d.eval steps ∧ Inv (d.runG steps) := by
+    (∀ s ∈ steps, s.okForChain = true) → noIntLitKey steps = true →
+    (d.runG steps).eval = specRunG d.eval steps ∧ Inv (d.runG steps) := by
   induction steps with
-  | nil => intro d hi _ _; exact ⟨rfl, hi⟩
+  | nil => intro d hi _ _ _; exact ⟨rfl, hi⟩
   | cons s ss ih =>
-    intro d hi hwf hok
-    obtain ⟨he, hi'⟩ := C06_step d s hi hwf.1 (hok s (by simp))
-    have := ih (d.applyG s) hi' (by rw [he]; exact hwf.2) (fun t ht => hok t (by simp [ht]))
+    intro d hi hwf hok hn
+    simp only [noIntLitKey, List.all_cons, Bool.and_eq_true, Bool.not_eq_true'] at hn
+    obtain ⟨he, hi'⟩ := C06_step d s hi hwf.1 (hok s (by simp)) hn.1
+    have := ih (d.applyG s) hi' (by rw [he]; exact hwf.2) (fun t ht => hok t (by simp [ht])) (by simpa [noIntLitKey] using hn.2)
     simp only [DF.runG, specRunG, List.foldl_cons] at this ⊢
     rw [this.1, he]
     exact ⟨rfl, this.2⟩
+
+/-- **Chains without cube, integer-literal keys allowed**: either the engine rejects the statement of some
+    grouping step (`runGErr`, which the check compares with the real engine's refusal) or the chain evaluates
+    to the specification — no silent wrong answer. -/
+theorem C06_run_loud (steps : List GStep) : ∀ (d : DF), Inv d → GStepsWF d.eval steps →
+    (∀ s ∈ steps, s.okForChain = true) →
+    d.runGErr steps = true ∨ ((d.runG steps).eval = specRunG d.eval steps ∧ Inv (d.runG steps)) := by
+  induction steps with
+  | nil => intro d hi _ _; exact Or.inr ⟨rfl, hi⟩
+  | cons s ss ih =>
+    intro d hi hwf hok
+    rw [runGErr_cons]
+    rcases applyG_step_loud d s hi hwf.1 (hok s (by simp)) with hr | ⟨he, hi'⟩
+    · left; rw [hr]; rfl
+    · rcases ih (d.applyG s) hi' (by rw [he]; exact hwf.2) (fun t ht => hok t (by simp [ht])) with h | h
+      · left; rw [h]; exact Bool.or_true _
+      · right
+        simp only [DF.runG, specRunG, List.foldl_cons] at h ⊢
+        rw [h.1, he]
+        exact ⟨rfl, h.2⟩
 
 /-! ### the full statement, the proved part, the counterexample -/
 
@@ -172,19 +292,21 @@ def C06_full_statement : Prop :=
   ∀ (T : Table) (steps : List GStep), T.WF → GStepsWF T steps → (∀ s ∈ steps, s.noOrderBy = true) →
     SameBag ((DF.init T).runG steps).eval (specRunG T steps)
 
-/-- **C06 (proved part).**  (1) every chain without cube: equality with the specification;
+/-- **C06 (proved part).**  Under `H_intLiteralKey` (no integer-literal grouping key):
+    (1) every chain without cube: equality with the specification;
     (2) a chain followed by one cube whose input is not empty (`H_cubeEmptyInput`): same bag. -/
 theorem C06_partial (T : Table) (hT : T.WF) (pre : List GStep) (hwf : GStepsWF T pre)
-    (hok : ∀ s ∈ pre, s.okForChain = true) :
+    (hok : ∀ s ∈ pre, s.okForChain = true) (hn : noIntLitKey pre = true) :
     ((DF.init T).runG pre).eval = specRunG T pre ∧
     (∀ keys aggs, aggsWF (specRunG T pre).cols keys aggs → (specRunG T pre).rows ≠ [] →
+      (∀ k ∈ keys, k.2.isIntLit = false) →
       SameBag ((DF.init T).runG (pre ++ [.group (.cube keys aggs)])).eval (specRunG T (pre ++ [.group (.cube keys aggs)]))) := by
   have hf := init_fresh T hT
   have he : (DF.init T).eval = T := fresh_eval _ hf
-  obtain ⟨hr, hi⟩ := C06_run pre (DF.init T) hf.inv (by rw [he]; exact hwf) hok
+  obtain ⟨hr, hi⟩ := C06_run pre (DF.init T) hf.inv (by rw [he]; exact hwf) hok hn
   rw [he] at hr
-  refine ⟨hr, fun keys aggs hw hne => ?_⟩
-  have h := (C06_cube_df _ hi keys aggs (by rw [hr]; exact hw) (by rw [hr]; exact hne)).1
+  refine ⟨hr, fun keys aggs hw hne hnk => ?_⟩
+  have h := (C06_cube_df _ hi keys aggs (by rw [hr]; exact hw) (by rw [hr]; exact hne) hnk).1
   simp only [DF.runG, specRunG, List.foldl_append, List.foldl_cons, List.foldl_nil] at hr ⊢
   simp only [DF.applyG, specG, GOp.implParts, GOp.specParts, GOp.isDfAgg, GOp.isCube, if_true, Bool.false_eq_true, if_false]
   rw [← hr]
@@ -199,6 +321,31 @@ theorem C06_cex_cubeEmptyInput :
     cexTable.WF ∧ GStepsWF cexTable cexSteps ∧
     ((DF.init cexTable).runG cexSteps).eval.rows = [[.null, .int 0]] ∧ (specRunG cexTable cexSteps).rows = [] ∧
     violatedC06 cexTable cexSteps = ["H_cubeEmptyInput"] := by decide
+
+def cexLitTable : Table := { cols := ["k", "x"], rows := [[.int 1, .int 2], [.int 1, .null], [.null, .int 5]] }
+def cexLitSteps : List GStep := [.group (.groupAgg [("c", .lit (.int 7))] [("n", .agg .countStar (.lit (.int 1)))])]
+def cexLitCube : List GStep := [.group (.cube [("k", .col "k"), ("one", .lit (.int 1))] [("n", .agg .countStar (.lit (.int 1)))])]
+
+/-- **counterexample** for `H_intLiteralKey` (replayed on the real code by the check):
+    `groupBy(lit(7).alias("c")).agg(count("*").alias("n"))` — `GROUP BY 7` is rejected by the engine,
+    PySpark returns `(7, 3)`. -/
+theorem C06_cex_intLiteralKey :
+    cexLitTable.WF ∧ GStepsWF cexLitTable cexLitSteps ∧
+    (DF.init cexLitTable).runGErr cexLitSteps = true ∧ (specRunG cexLitTable cexLitSteps).rows = [[.int 7, .int 3]] ∧
+    violatedC06 cexLitTable cexLitSteps = ["H_intLiteralKey"] := by decide
+
+/-- … and inside cube the positional reading is silent: `cube("k", lit(1).alias("one")).agg(count)` emits
+    `GROUPING SETS ((k, 1), (k), (1), ())` where `1` names the first select item `k`, so the constant column
+    is never NULLed and the `(one)`-level groups by `k` -/
+theorem C06_cex_intLiteralKey_cube :
+    GStepsWF cexLitTable cexLitCube ∧ (DF.init cexLitTable).runGErr cexLitCube = false ∧
+    ((DF.init cexLitTable).runG cexLitCube).eval.rows =
+      [[.int 1, .int 1, .int 2], [.null, .int 1, .int 1], [.int 1, .int 1, .int 2], [.null, .int 1, .int 1],
+       [.int 1, .int 1, .int 2], [.null, .int 1, .int 1], [.null, .int 1, .int 3]] ∧
+    (specRunG cexLitTable cexLitCube).rows =
+      [[.int 1, .int 1, .int 2], [.null, .int 1, .int 1], [.int 1, .null, .int 2], [.null, .null, .int 1],
+       [.null, .int 1, .int 3], [.null, .null, .int 3]] ∧
+    violatedC06 cexLitTable cexLitCube = ["H_intLiteralKey"] := by decide
 
 theorem C06_not_full : ¬ C06_full_statement := by
   intro h
@@ -222,7 +369,7 @@ def exChain : List GStep :=
     .plain (.wher (.bin .gt (.col "c") (.lit (.int 1)))),
     .group (.shortcut [] "mean" ["c"]) ]
 
-example : exT.WF ∧ GStepsWF exT exChain ∧ (∀ s ∈ exChain, s.okForChain = true) := by decide
+example : exT.WF ∧ GStepsWF exT exChain ∧ (∀ s ∈ exChain, s.okForChain = true) ∧ noIntLitKey exChain = true := by decide
 example : (specRunG exT (exChain.take 2)).rows =
     [[.int 2, .int 2, .int 1, .int 3, .int 3, .str "a", .int 3, .int 2, .int 5],
      [.null, .int 2, .int 2, .int 14, .int 7, .str "a", .int 8, .int 1, .int 16],
@@ -232,5 +379,29 @@ example : countDistinctTuples [[.str "ann", .str "tea"], [.str "ann", .str "tea"
     [.str "bob", .str "tea"], [.null, .null]] = .int 2 := by decide
 example : (cubeSets ["a", "b"]) = [["a", "b"], ["a"], ["b"], []] := by decide
 example : aggsWF exT.cols [("k", .col "k"), ("s", .col "s")] [("count", .agg .countStar (.lit (.int 1)))] ∧ exT.rows ≠ [] := by decide
+
+/-- constant keys (a string, a Boolean, NULL, a constant expression) next to a column: hypotheses of
+    `C06_agg_sem` / `C06_const_keys` hold, and the values are what PySpark returns -/
+def exConstKeys : List (Name × Expr) := [("scope", .lit (.str "all")), ("t", .lit (.bool true)), ("nn", .lit .null), ("two", .bin .add (.lit (.int 1)) (.lit (.int 1)))]
+example : exConstKeys ≠ [] ∧ (∀ k ∈ exConstKeys, k.2.refs = []) ∧ (∀ k ∈ exConstKeys, k.2.isIntLit = false) ∧
+    aggsWF exT.cols exConstKeys [("n", .agg .countStar (.lit (.int 1)))] := by decide
+example : (aggSpec exConstKeys [("n", .agg .countStar (.lit (.int 1)))] exT).rows = [[.str "all", .bool true, .null, .int 2, .int 5]] ∧
+    (aggSpec exConstKeys [("n", .agg .countStar (.lit (.int 1)))] { exT with rows := [] }).rows = [] ∧
+    (((DF.init { exT with rows := [] }).groupBy exConstKeys).agg [("n", .agg .countStar (.lit (.int 1)))]).eval.rows = [] ∧
+    ((DF.init { exT with rows := [] }).aggAll [("n", .agg .countStar (.lit (.int 1)))]).eval.rows = [[.int 0]] := by decide
+example : groupByTerm [("a", .key (.col "k")), ("n", .agg (.agg .countStar (.lit (.int 1))))] (.lit (.int 1)) = some (.col "k") ∧
+    groupByTerm [("a", .key (.col "k")), ("n", .agg (.agg .countStar (.lit (.int 1))))] (.lit (.int 2)) = none ∧
+    groupByTerm [("a", .key (.col "k")), ("n", .agg (.agg .countStar (.lit (.int 1))))] (.lit (.int 0)) = none := by decide
+example : (("c", Expr.lit (.int 7)) ∈ [("k", Expr.col "k"), ("c", Expr.lit (.int 7))]) ∧ ((2 : Int) < 7) := by decide
+
+/-- both alternatives of `C06_run_loud` occur: `GROUP BY 7` is rejected; `GROUP BY k, 2` (the position of the
+    constant itself) is accepted and right; so is `GROUP BY k, 1` where the position names the key `k` -/
+def exLoudChain (n : Int) : List GStep :=
+  [.group (.groupAgg [("k", .col "k"), ("c", .lit (.int n))] [("t", .agg .sum (.col "x"))]),
+   .plain (.wher (.bin .gt (.col "t") (.lit (.int 0))))]
+example : GStepsWF exT (exLoudChain 7) ∧ (∀ s ∈ exLoudChain 7, s.okForChain = true) ∧ (DF.init exT).runGErr (exLoudChain 7) = true := by decide
+example : (DF.init exT).runGErr (exLoudChain 2) = false ∧ (DF.init exT).runGErr (exLoudChain 1) = false ∧
+    ((DF.init exT).runG (exLoudChain 2)).eval = specRunG exT (exLoudChain 2) ∧
+    (specRunG exT (exLoudChain 2)).rows = [[.int 1, .int 2, .int 2], [.null, .int 2, .int 12]] := by decide
 
 end Sqlframe
